@@ -11,6 +11,9 @@ package main
 //                         shortcut references, label matching); driver op `cmspec linkr`.
 //   op ddef <hex X>       link reference definitions (4.7): the document is `[a]: X` + blank line + `[a]` (X on one line): is it a
 //                         definition, and with which destination / title; driver op `cmspec linkdef`.
+//   op docq <k> <hex body> a one-paragraph body with a reference label / link text ACROSS LINES, spelled in container k (top level,
+//                         block quotes, list item, lazy continuation lines) + blank line + `[a b]: /u`: the paragraph's HTML is the
+//                         reference's (`cmspec linkrx`), the container only adds its tags; clause reference-link-in-container-differs.
 //   op exr <i>            a spec example that is a body plus ONE link reference definition: driver op `cmspec linkrx`.
 //   op ex  <i>            example i of _test/spec.json inside the scope: the REFERENCE must reproduce spec.json's html
 //                         (engine comparison) and goldmark must too (oracle).
@@ -40,11 +43,11 @@ func init() {
 		Gen:  genCMLink,
 		Impl: implCMLink,
 		Scope: func(tier string) string {
-			ni, nt, ns, nr, nd := 5, 4, 6, 6, 5
+			ni, nt, ns, nr, nd, nq := 5, 4, 6, 6, 5, 6
 			if tier == "thorough" {
-				ni, nt, ns, nr, nd = 6, 5, 7, 7, 6
+				ni, nt, ns, nr, nd, nq = 6, 5, 7, 7, 6, 8
 			}
-			return fmt.Sprintf("exhaustive: `[a](X)` for every X of length <= %d (quick: with the byte 0x01 only up to one less) and `[a](X` for every X of length <= %d over {a, space, <, >, (, ), \", \\, newline, 0x01}; `[a](b T)` and `[a](<b>T)` for every T of length <= %d over {a, space, newline, \", ', (, ), \\}; every string of length <= %d over {a, [, ], (, ), !, \\} and over {a, [, ], (, ), <, >, space} (link text shapes, nesting, images, raw HTML precedence); random strings of length 6..30; with the definition `[a]: /u` appended: every string of length <= %d over {a, b, [, ], space, \\, !} and over {a, A, [, ], (, ), newline}; definitions `[a]: X` + `[a]` for every X of length <= %d over {a, space, <, >, (, ), \", \\, 0x01} and `b T`, `<b>T` for every T of that length over {a, space, \", ', (, ), \\}; all spec.json examples inside the scope", ni, ni-1, nt+1, ns, nr, nd)
+			return fmt.Sprintf("exhaustive: `[a](X)` for every X of length <= %d (quick: with the byte 0x01 only up to one less) and `[a](X` for every X of length <= %d over {a, space, <, >, (, ), \", \\, newline, 0x01}; `[a](b T)` and `[a](<b>T)` for every T of length <= %d over {a, space, newline, \", ', (, ), \\}; every string of length <= %d over {a, [, ], (, ), !, \\} and over {a, [, ], (, ), <, >, space} (link text shapes, nesting, images, raw HTML precedence); random strings of length 6..30; with the definition `[a]: /u` appended: every string of length <= %d over {a, b, [, ], space, \\, !} and over {a, A, [, ], (, ), newline}; definitions `[a]: X` + `[a]` for every X of length <= %d over {a, space, <, >, (, ), \", \\, 0x01} and `b T`, `<b>T` for every T of that length over {a, space, \", ', (, ), \\}; every one-paragraph string of length <= %d over {a, b, [, ], !, newline} with a line ending between brackets (reference labels / link texts across lines; definition `[a b]: /u`) spelled at top level, in a block quote (3 spellings), nested quote, bullet item, quote in an item, and with lazy continuation lines; all spec.json examples inside the scope", ni, ni-1, nt+1, ns, nr, nd, nq)
 		},
 		Exhaustive: true,
 	})
@@ -120,6 +123,9 @@ func cmlinkModelLine(c Case) string {
 		return "cmspec linkr " + c.Args[0]
 	case "ddef":
 		return "cmspec linkdef " + c.Args[0]
+	case "docq":
+		// the paragraph alone, with the definition `[a b]: /u` (label given explicitly, no title)
+		return "cmspec linkrx " + c.Args[1] + " " + hx([]byte("a b")) + " " + hx([]byte("/u")) + " none"
 	case "ex":
 		i, _ := strconv.Atoi(c.Args[0])
 		exs := SpecExamples()
@@ -133,10 +139,10 @@ func cmlinkModelLine(c Case) string {
 
 func genCMLink(tier string, rng *RNG, emit func(Case)) {
 	ni, nt, ns, nrand := 5, 4, 6, 30000
-	nr, nd := 6, 5
+	nr, nd, nq := 6, 5, 6
 	if tier == "thorough" {
 		ni, nt, ns, nrand = 6, 5, 7, 400000
-		nr, nd = 7, 6
+		nr, nd, nq = 7, 6, 8
 	}
 	var cases []Case
 	seen := map[string]struct{}{}
@@ -193,6 +199,23 @@ func genCMLink(tier string, rng *RNG, emit func(Case)) {
 			b = append(b, alph[rng.Intn(len(alph))]...)
 		}
 		docr(b)
+	}
+	// reference labels / link texts ACROSS LINES inside containers (6.3: a label may contain line endings, matching collapses
+	// them; 5.1 / 5.2: the container's marker or indentation is not part of the paragraph's content): one paragraph over
+	// {a, b, [, ], !, newline} with a line ending between brackets, definition `[a b]: /u`, spelled at top level, in a block
+	// quote, in a nested quote, in a bullet item, and with lazy continuation lines (quote and item)
+	enumStrings(syms("a", "b", "[", "]", "!", "\n"), nq, func(b []byte) {
+		if !cmlinkMultiLineLabel(b) {
+			return
+		}
+		for k := range cmlinkContainers {
+			cases = append(cases, Case{Op: "docq", Args: []string{strconv.Itoa(k), hx(b)}})
+		}
+	})
+	for _, f := range []string{"[A\nb]", "[a\nB][]", "![a\nb]", "![a\nb][]", "[x][a\nb]", "![x\ny][a\nB]", "[b\na][a\nb]", "a [a\nb] b\n[a\nb][]"} {
+		for k := range cmlinkContainers {
+			cases = append(cases, Case{Op: "docq", Args: []string{strconv.Itoa(k), hx([]byte(f))}})
+		}
 	}
 	// link reference DEFINITIONS (4.7; goldmark's parseLinkDestination is shared with inline links): `[a]: X` + blank line + `[a]`
 	enumStrings(syms("a", " ", "<", ">", "(", ")", "\"", "\\", "\x01"), nd, func(x []byte) {
@@ -316,6 +339,29 @@ func implCMLink(c Case) ImplResult {
 		src = append(append([]byte("[a]: "), unhx(c.Args[0])...), []byte("\n\n[a]\n")...)
 		got = cmspecConvert(src)
 		res.Out = hx(got)
+	case "docq":
+		k, _ := strconv.Atoi(c.Args[0])
+		if k < 0 || k >= len(cmlinkContainers) || len(c.Args) < 2 {
+			return ImplResult{Out: "bad-op"}
+		}
+		ct := cmlinkContainers[k]
+		src = append(ct.spell(unhx(c.Args[1])), []byte("\n\n[a b]: /u\n")...)
+		got = cmspecConvert(src)
+		// the reference prescribes the paragraph `<p>X</p>\n`; the container adds its tags (5.1 example 228 ff., 5.2 / 5.3 tight item)
+		inner := bytes.TrimSuffix(bytes.TrimPrefix(want, []byte("<p>")), []byte("</p>\n"))
+		if !bytes.HasPrefix(want, []byte("<p>")) || !bytes.HasSuffix(want, []byte("</p>\n")) || bytes.Contains(inner, []byte("<p>")) {
+			return ImplResult{Out: "n-a", ModelLine: line, NoModel: true} // not a single paragraph
+		}
+		want = []byte(ct.pre + string(ct.para(inner)) + ct.post)
+		if bytes.HasPrefix(got, []byte(ct.pre)) && bytes.HasSuffix(got, []byte(ct.post)) && len(got) >= len(ct.pre)+len(ct.post) {
+			g := got[len(ct.pre) : len(got)-len(ct.post)]
+			if ct.tight {
+				g = append(append([]byte("<p>"), g...), []byte("</p>\n")...)
+			}
+			res.Out = hx(g)
+		} else {
+			res.Out = "other-block-structure:" + hx(got)
+		}
 	case "ex", "exr":
 		i, _ := strconv.Atoi(c.Args[0])
 		e := SpecExamples()[i]
@@ -354,12 +400,71 @@ func implCMLink(c Case) ImplResult {
 	return res
 }
 
+// cmlinkContainers: how the paragraph of a `docq` case is spelled inside a container and what the container adds to the HTML
+type cmlinkContainer struct {
+	name      string
+	first     string // prefix of the first line
+	cont      string // prefix of the following lines ("" = lazy continuation lines where the first prefix is not empty)
+	pre, post string
+	tight     bool // the paragraph is the only child of a tight list item: no <p> tags
+}
+
+func (ct cmlinkContainer) spell(body []byte) []byte {
+	lines := bytes.Split(body, []byte("\n"))
+	var out []byte
+	for i, l := range lines {
+		if i == 0 {
+			out = append(out, ct.first...)
+		} else {
+			out = append(out, '\n')
+			out = append(out, ct.cont...)
+		}
+		out = append(out, l...)
+	}
+	return out
+}
+
+func (ct cmlinkContainer) para(inner []byte) []byte {
+	if ct.tight {
+		return inner
+	}
+	return append(append([]byte("<p>"), inner...), []byte("</p>\n")...)
+}
+
+var cmlinkContainers = []cmlinkContainer{
+	{"top level", "", "", "", "", false},
+	{"block quote", "> ", "> ", "<blockquote>\n", "</blockquote>\n", false},
+	{"block quote, marker without space", ">", ">", "<blockquote>\n", "</blockquote>\n", false},
+	{"nested block quote", "> > ", "> > ", "<blockquote>\n<blockquote>\n", "</blockquote>\n</blockquote>\n", false},
+	{"block quote, lazy continuation lines", "> ", "", "<blockquote>\n", "</blockquote>\n", false},
+	{"bullet list item", "- ", "  ", "<ul>\n<li>", "</li>\n</ul>\n", true},
+	{"bullet list item, lazy continuation lines", "- ", "", "<ul>\n<li>", "</li>\n</ul>\n", true},
+	{"block quote in a list item", "- > ", "  > ", "<ul>\n<li>\n<blockquote>\n", "</blockquote>\n</li>\n</ul>\n", false},
+}
+
+// cmlinkMultiLineLabel: the body is one paragraph (no empty line, no line ending at either end), has a line ending between
+// an opening and a closing bracket, and no blank label `[⏎]` (deviation L5)
+func cmlinkMultiLineLabel(b []byte) bool {
+	if len(b) == 0 || b[0] == '\n' || b[len(b)-1] == '\n' || bytes.Contains(b, []byte("\n\n")) || bytes.Contains(b, []byte("[\n]")) {
+		return false
+	}
+	i := bytes.IndexByte(b, '[')
+	j := bytes.LastIndexByte(b, ']')
+	if i < 0 || j < i {
+		return false
+	}
+	return bytes.IndexByte(b[i:j], '\n') >= 0
+}
+
 // cmlinkAttribute names the clause of a difference. The reference can be asked to REPRODUCE four confirmed deviations
 // of goldmark's inline-link scanner (driver op `cmspec linkattr <hex source> <hex got>`; bit 1 control character accepted in a
 // destination, 2 destination may end at white space with an open parenthesis, 4 unescaped `<` inside `<...>`, 8 title
 // directly after the destination): the smallest set of switches under which the reference's output equals goldmark's
 // names the clause. known = attributed to recorded deviations (each clause needs its `finding:` line to be tolerated).
 func cmlinkAttribute(c Case, src, got, want []byte) (string, bool) {
+	if c.Op == "docq" {
+		return "reference-link-in-container-differs", false
+	}
 	refA, body := "0", src
 	if c.Op == "docr" {
 		refA, body = "1", unhx(c.Args[0])
